@@ -72,6 +72,12 @@ def handleDefer : List String → String
     | some P => let r := emuState fuel P
                 s!"off={r.1} psd={match r.2.1 with | none => "null" | some d => toString d} ps={r.2.2.1} ds={r.2.2.2}"
     | none => "bad-op"
+  | ["emuat", d, p] => match d.toNat?, parseProg p with
+    | some d, some P => showObs (emuAt fuel d P)
+    | _, _ => "bad-op"
+  | ["depthprobe", d] => match d.toNat? with   -- $getStackDepth() at nested depth d minus at depth 0
+    | some d => toString ((getStackDepth JS.init d - getStackDepth JS.init 0).toNat)
+    | none => "bad-op"
   | ["ref", p] => match parseProg p with | some P => showObs (ref fuel P) | none => "bad-op"
   | _ => "bad-op"
 
